@@ -3,7 +3,6 @@
 use crate::common::*;
 use crate::gen::*;
 use crate::scen_render::*;
-use fast_qr::convert::Builder;
 use fast_qr::wasm_host::{qr, qr_svg, SvgOptions};
 use fast_qr::QRBuilder;
 use rand::Rng;
@@ -55,29 +54,35 @@ fn strict_color(s: &str) -> Option<[u8; 4]> {
     let b = |i: usize| u8::from_str_radix(&t[2 * i..2 * i + 2], 16).unwrap();
     Some([b(0), b(1), b(2), if t.len() == 8 { b(3) } else { 255 }])
 }
-/// The same settings on the native API (only meaningful when every value of the program is well-formed)
-fn native_svg(content: &str, prog: &[WCall]) -> Option<String> {
-    let mut qb = QRBuilder::new(content);
+/// The same settings on the native API: the sequence of native builder calls qr_svg is documented to make
+/// (values that are not well-formed leave the previous value in place).  Returned as data so that the specification can
+/// check it against its own mapping NativeOf(W_After(program)).
+fn native_program(prog: &[WCall]) -> Vec<Call> {
     let (mut shape, mut margin, mut module, mut bg, mut imgbg, mut imgshape) = (0usize, 4usize, [0, 0, 0, 255u8], [255u8; 4], [255u8; 4], 0usize);
     let (mut image, mut size, mut pos): (String, Option<(f64, f64)>, Option<(f64, f64)>) = (String::new(), None, None);
     for c in prog {
         match c {
             WCall::Shape(s) => shape = *s, WCall::Margin(m) => margin = *m,
-            WCall::Ecl(e) => { qb.ecl(LEVELS[*e]); } WCall::Version(v) => { qb.version(version(*v)); }
+            WCall::Ecl(_) | WCall::Version(_) => {}
             WCall::ModuleColor(s) => if let Some(c) = strict_color(s) { module = c }, WCall::BackgroundColor(s) => if let Some(c) = strict_color(s) { bg = c },
             WCall::ImageBackgroundColor(s) => if let Some(c) = strict_color(s) { imgbg = c },
             WCall::Image(s) => image = s.clone(), WCall::ImageBackgroundShape(k) => imgshape = *k,
             WCall::ImageSize(s, g) => size = Some((*s, *g)), WCall::ImagePosition(f) => if f.len() == 2 { pos = Some((f[0], f[1])) },
         }
     }
+    let mut p = vec![Call::Shape(shape), Call::Margin(margin), Call::BackgroundColor(bg.to_vec()), Call::ModuleColor(module.to_vec())];
+    if !image.is_empty() { p.push(Call::Image(image)); }
+    p.push(Call::ImageBackgroundColor(imgbg.to_vec()));
+    p.push(Call::ImageBackgroundShape(imgshape));
+    if let Some((s, g)) = size { p.push(Call::ImageSize(s)); p.push(Call::ImageGap(g)); }
+    if let Some((x, y)) = pos { p.push(Call::ImagePosition(x, y)); }
+    p
+}
+fn native_svg(content: &str, prog: &[WCall]) -> Option<String> {
+    let mut qb = QRBuilder::new(content);
+    for c in prog { match c { WCall::Ecl(e) => { qb.ecl(LEVELS[*e]); } WCall::Version(v) => { qb.version(version(*v)); } _ => {} } }
     let qr = qb.build().ok()?;
-    let mut b = fast_qr::convert::svg::SvgBuilder::default();
-    b.shape(SHAPES[shape]); b.margin(margin); b.background_color(bg); b.module_color(module);
-    if !image.is_empty() { b.image(image); }
-    b.image_background_color(imgbg); b.image_background_shape(FRAME_SHAPES[imgshape]);
-    if let Some((s, g)) = size { b.image_size(s); b.image_gap(g); }
-    if let Some((x, y)) = pos { b.image_position(x, y); }
-    Some(b.to_str(&qr))
+    Some(svg_builder(&native_program(prog)).to_str(&qr))
 }
 fn native_build(content: &str, prog: &[WCall]) -> Value {
     let mut spec = BuildSpec { input: content.as_bytes().to_vec(), ..Default::default() };
@@ -90,15 +95,17 @@ pub fn wasm_svg_event(id: u64, tag: &str, content: &str, prog: &[WCall]) -> Valu
     let (c, p) = (content.to_string(), prog.to_vec());
     let res = guarded(60, move || { let mut o = SvgOptions::new(); for call in &p { o = call.apply(o); } qr_svg(&c, o) });
     let nat = native_build(content, prog);
-    let mut ev = json!({"ev": "WasmSvg", "id": id, "tag": tag, "content": content.as_bytes(), "program": prog.iter().map(|c| c.json()).collect::<Vec<_>>(), "native": nat});
+    let mut ev = json!({"ev": "WasmSvg", "id": id, "tag": tag, "content": content.as_bytes(), "program": prog.iter().map(|c| c.json()).collect::<Vec<_>>(), "native": nat,
+                        "native_program": program_json(&native_program(prog))});
     match res {
         Ok(s) => {
             let n = native_svg(content, prog);
             ev["kind"] = json!("Ok"); ev["empty"] = json!(s.is_empty() as u8);
             ev["native_eq"] = json!(match &n { Some(x) => (*x == s) as u8, None => s.is_empty() as u8 });
             ev["obs"] = if s.is_empty() { sense_svg("<x") } else { sense_svg(&s) };
+            ev["nobs"] = match &n { Some(x) => sense_svg(x), None => sense_svg("<x") };
         }
-        Err(k) => { ev["kind"] = json!(k); ev["empty"] = json!(1); ev["native_eq"] = json!(0); ev["obs"] = sense_svg("<x"); }
+        Err(k) => { ev["kind"] = json!(k); ev["empty"] = json!(1); ev["native_eq"] = json!(0); ev["obs"] = sense_svg("<x"); ev["nobs"] = sense_svg("<x"); }
     }
     ev
 }
